@@ -9,6 +9,8 @@ EXTENDS ProgressBar, Json, TLC
 CONSTANTS MCModes, MCWidths, MCGaps, MCFormats, MCMax,   \* configuration space
           Ticks,                                         \* clock advances before a call (ticks of 1/1024 s)
           StartArgs, AdvArgs, SetArgs, Msgs,             \* call arguments
+          MCFreq,                                        \* set_redraw_frequency (effective without a minimum interval)
+          Switch, Rewidth, Charsets,                     \* set_format / set_bar_width / character setters between draws
           Depth
 
 VARIABLES hist
@@ -44,6 +46,10 @@ SetTwo == {2, 12}
 SetNone == {}
 SetBig == {-1, 29, 58, 199, 250}
 NoMsgs == {}
+NoSwitch == {}
+SwitchQ == {"normal", "msg"}
+RewidthQ == {2, 4}
+CharsQ == {DefaultChars, [bar |-> "#", empty |-> "~", prog |-> <<>>]}
 MsgsQ == {<<"m">>, <<"l", "o", "n", "g", "e", "r">>, <<>>}
 Pre == << <<"#", "#">> >>
 \* a multi-line format moves the cursor up before its very first frame as well (pinned by the repository's
@@ -51,14 +57,18 @@ Pre == << <<"#", "#">> >>
 \* output, therefore two-line formats start on an empty screen here and in the recorded runs
 TermW == 60
 
-Cfg(mode, bw, gap, fmt, m) == [mode |-> mode, bw |-> bw, mingap |-> gap, maxgap |-> 1024, fmt |-> fmt, w |-> TermW,
+Cfg(mode, bw, gap, fmt, m) == [mode |-> mode, bw |-> bw, mingap |-> gap, maxgap |-> 1024, freq |-> MCFreq, fmt |-> fmt,
+                               chars |-> DefaultChars, w |-> TermW,
                                pre |-> IF fmt = "two" THEN <<>> ELSE Pre, max0 |-> m]
+
+\* recorded per call: the event and the configurable part of the configuration in force after it
+Obs == last @@ [conf |-> [fmt |-> cfg.fmt, bw |-> cfg.bw, chars |-> cfg.chars]]
 
 HInit == /\ \E mode \in MCModes, bw \in MCWidths, gap \in MCGaps, fmt \in MCFormats, m \in MCMax :
               InitWith(Cfg(mode, bw, gap, fmt, m))
-         /\ hist = <<>>
+         /\ hist = <<Obs>>                                  \* the "new" event: the configuration the bar is created with
 
-H(A) == Len(hist) < Depth /\ A /\ hist' = Append(hist, last')
+H(A) == Len(hist) <= Depth /\ A /\ hist' = Append(hist, Obs')
 HStart   == \E dt \in Ticks, m \in StartArgs : H(Call(dt, "start", m))
 HAdvance == \E dt \in Ticks, k \in AdvArgs : H(Call(dt, "advance", k))
 HSet     == \E dt \in Ticks, n \in SetArgs : H(Call(dt, "set", n))
@@ -67,7 +77,11 @@ HClear   == \E dt \in Ticks : H(Call(dt, "clear", 0))
 HFinish  == \E dt \in Ticks : H(Call(dt, "finish", 0))
 HMessage == \E m \in Msgs : cfg.fmt # "normal" /\ m # bar.msg /\ H(SetMessage(m))
 
-HNext == HStart \/ HAdvance \/ HSet \/ HDisplay \/ HClear \/ HFinish \/ HMessage
+HFormat == \E f \in Switch : cfg.fmt # "two" /\ f # cfg.fmt /\ H(Reconfigure("fmt", f, cfg.bw, cfg.chars))
+HWidth == \E w \in Rewidth : w # cfg.bw /\ H(Reconfigure("bw", cfg.fmt, w, cfg.chars))
+HChars == \E c \in Charsets : c # cfg.chars /\ H(Reconfigure("chars", cfg.fmt, cfg.bw, c))
+
+HNext == HStart \/ HAdvance \/ HSet \/ HDisplay \/ HClear \/ HFinish \/ HMessage \/ HFormat \/ HWidth \/ HChars
 HSpec == HInit /\ [][HNext]_hvars
 \* `last` (what the last call was and what it wrote) and `hist` are observations only: they are kept out of the VIEW,
 \* and the clauses that talk about `last` are checked on every transition as action properties (TLC evaluates
@@ -83,5 +97,5 @@ PFinish == [][FinishOK']_hvars
 PQuiet == [][QuietNothing']_hvars
 PPlainOps == [][(Plain => OnlyPlain(last.ops))']_hvars
 
-Emit == Len(hist) = Depth => PrintT(ToJson([cfg |-> cfg, events |-> hist]))
+Emit == Len(hist) = Depth + 1 => PrintT(ToJson([cfg |-> cfg, events |-> hist]))
 =============================================================================
